@@ -170,7 +170,10 @@ def run(prog, ctx):
             i_t = tm.term(a.target.slice)
             want = [("s", ("n", cw.params[0]), i_t), ("s", ("n", cw.params[0]), tm.term(b.target.slice))]
             resolved = [R.resolve_locals(cw, x, an, tm, depth=1) for x in m0_args]
-            ok = resolved == want
+            # interval ends bound by the loop header (enumerate(zip(g[:-1], g[1:]))) are positions as well
+            resolved = [(R.positional_term(cw, x[1], tm) or x) if x[0] == "n" else x for x in resolved]
+            norm_ = lambda t_: ("s", t_[1], poly_of_term(t_[2])) if t_[0] == "s" else t_
+            ok = [norm_(x) for x in resolved] == [norm_(x) for x in want]
             why = "the zeroth moment is taken over %s, not over the interval of the two updated entries" % [show(x) for x in resolved]
         if ok and isinstance(a.value, ast.Name):
             bdef = R.reaching_unique_def(cw, a.value.id, a.value)
@@ -269,6 +272,34 @@ def run(prog, ctx):
                 t = tmm.term(b.value)
                 if t[0] == "comp" and t[2][0] == "call" and t[2][1] in (("n", "abs"),) :
                     ok = True
+    # alternative: one loop that computes each entry, fixes its sign and appends it -- judged per entry by path summaries of the body
+    entry_vals = None
+    if not ok and rets and isinstance(rets[0].ast.value, ast.Tuple) and len(rets[0].ast.value.elts) == 2 and isinstance(rets[0].ast.value.elts[1], ast.Name):
+        vname = rets[0].ast.value.elts[1].id
+        for loop in [l for l in walk_local(mv.node) if isinstance(l, ast.For)]:
+            apps_ = [x for x in R.calls_in(loop, method="append") if isinstance(x.func.value, ast.Name) and x.func.value.id == vname and x.args]
+            if len(apps_) != 1 or not cm.edge_dominates(cm.node_of(loop), False, rets[0]):
+                continue
+            sums = R.block_summaries(mv, loop.body, lambda st_: st_.value.args[0] if isinstance(st_, ast.Expr) and isinstance(st_.value, ast.Call)
+                                     and isinstance(st_.value.func, ast.Attribute) and st_.value.func.attr == "append"
+                                     and isinstance(st_.value.func.value, ast.Name) and st_.value.func.value.id == vname and st_.value.args else None)
+            if not sums:
+                continue
+            good = True
+            entry_vals = set()
+            zero = (("c", "0"), ("c", "0.0"))
+            for (f, val) in sums:
+                base = val[1] if val[0] == "neg" else val
+                entry_vals.add(base)
+                if val[0] == "neg":
+                    good = good and any(g[0] == "cmp" and g[1] == "Lt" and g[2] == base and g[3] in zero for g in f)
+                elif val[0] == "call" and val[1] in (("n", "abs"),):
+                    entry_vals.discard(base)
+                    entry_vals.add(val[2][0])
+                else:
+                    good = good and any(g[0] == "cmp" and g[1] == "LtE" and g[2] in zero and g[3] == base for g in f)
+            ok = good
+            entry_loop = loop
     ctx.check(ok, "C15.D4", R.key_of(mv, "variance-nonneg"), mv.loc(),
               "every negative variance entry is replaced by its negation before the pair is returned",
               "moments_to_expectation_variance can return a negative variance: " + why)
@@ -283,6 +314,23 @@ def run(prog, ctx):
                 if t[3][0][1] == ("call", ("n", "enumerate"), (("n", m1),), ()) and \
                         body == ("op", "Sub", (("s", ("n", m2), ("bv", "$0")), ("op", "Mult", (("bv", "$1"), ("bv", "$1"))))):
                     okv = True
+    if not okv and entry_vals is not None and len(entry_vals) == 1:
+        # loop form: the entry is m2[i] - e * e with e the element of the expectation at the same position i
+        m1, m2 = mv.params[0], mv.params[1]
+        tmv0 = Terms(mv.node, max_depth=0)
+        ev = list(entry_vals)[0]
+        def posn(t_):
+            if isinstance(t_, tuple) and len(t_) == 2 and t_[0] == "n":
+                return R.positional_term(mv, t_[1], Terms(mv.node)) or t_
+            if isinstance(t_, tuple):
+                return tuple(posn(x) for x in t_)
+            return t_
+        ev = posn(ev)
+        idxs = {x[2] for x in subterms(ev) if x[0] == "s" and x[1] in (("n", m1), ("n", m2))}
+        if len(idxs) == 1:
+            i_t = list(idxs)[0]
+            e_t = ("s", ("n", m1), i_t)
+            okv = poly_of_term(ev) == poly_of_term(("op", "Sub", (("s", ("n", m2), i_t), ("op", "Mult", (e_t, e_t)))))
     ctx.check(okv, "C15.D4", R.key_of(mv, "variance-formula"), mv.loc(),
               "variance[i] = second_moment[i] - expectation[i]**2", "the variance is no longer second_moment[i] - expectation[i] * expectation[i]")
 
@@ -361,40 +409,37 @@ def run(prog, ctx):
     tmw = Terms(gmw.node, max_depth=0)
     cg = cfg_of(gmw)
     a_, b_ = gmw.params[0], gmw.params[1]
-    # role of the midpoint: the local that get_middle_weighted returns
-    mids = {r.ast.value.id for r in R.return_paths(gmw)[0] if isinstance(r.ast.value, ast.Name)}
-    MID = sorted(mids)[0] if len(mids) == 1 else None
-    if MID is None:
-        raise AnalysisError("anchor vanished: get_middle_weighted no longer returns one local (the midpoint)")
-    inside = {("cmp", "Lt", ("n", a_), ("n", MID)), ("cmp", "Lt", ("n", MID), ("n", b_))}
-    fallbacks = []
-    first_def = None
-    for bnd_ in tmw.env.bindings.get(MID, []):
-        if bnd_.kind == "assign":
-            n = cg.node_of(bnd_.stmt)
-            if first_def is None or n.idx < first_def.idx:
-                first_def = n
-    for bnd_ in tmw.env.bindings.get(MID, []):
-        if bnd_.kind == "assign" and cg.node_of(bnd_.stmt) is not first_def:
-            fallbacks.append(bnd_)
-    ctx.floor("C15.D6", len(fallbacks), 2, "fallback assignments of the weighted midpoint")
-    for k, fb in enumerate(fallbacks):
-        n = cg.node_of(fb.stmt)
-        # the fallback is reachable only through a failed  a < mid < b  test: removing the False edges of the conjunct tests
-        tests = [t for t in cg.nodes if t.kind == "test" and (tmw.term(t.ast) in inside or
-                 (tmw.term(t.ast)[0] == "bool" and tmw.term(t.ast)[1] == "and" and set(tmw.term(t.ast)[2]) == inside))]
-        be = set()
-        for t in tests:
-            for (s, l) in t.succ:
-                if l is False:
-                    be.add((t.idx, s.idx, l))
-        ok = bool(tests) and n.idx not in cg.reachable(blocked_edges=be)
-        ctx.check(ok, "C15.D6", R.key_of(gmw, "fallback-guarded#%d" % k), gmw.loc(fb.stmt),
-                  "`%s` is taken only after the test a < mid < b failed" % src(fb.stmt),
-                  "the midpoint fallback `%s` can replace a midpoint that was strictly inside (a, b)" % src(fb.stmt))
-    withv = R.return_paths(gmw)[0]
-    ctx.check(bool(withv) and all(tmw.term(r.ast.value) == ("n", MID) for r in withv), "C15.D6", R.key_of(gmw, "returns-mid"), gmw.loc(),
-              "the (possibly corrected) midpoint is returned", "get_middle_weighted does not return the checked midpoint")
+    # Path summaries (loop-free function): every path is (facts, returned value) with locals substituted, so early returns, nested
+    # ifs and temporaries all look the same.  inside(C) is the test a < C < b of a candidate C.
+    from ..terms import negate as _negate
+
+    def inside(C):
+        return ("bool", "and", tuple(sorted((("cmp", "Lt", ("n", a_), C), ("cmp", "Lt", C, ("n", b_))), key=repr)))
+    ps = R.path_summaries(gmw)
+    if ps is None:
+        raise AnalysisError("C15.D6: get_middle_weighted is no longer loop-free (path summaries unavailable)")
+    ps = [(f, v) for (f, v) in ps if v != ("<falls-off>",)]
+    cands = []
+    for (f, v) in ps:
+        for g in f:
+            if g[0] == "bool" and g[1] in ("and", "or") and len(g[2]) == 2:
+                for C in {x for lit in g[2] if lit[0] == "cmp" for x in (lit[2], lit[3])} - {("n", a_), ("n", b_)}:
+                    if g in (inside(C), _negate(inside(C))) and C not in cands:
+                        cands.append(C)
+    primary = [C for C in cands if any(x[0] == "call" and x[1] == ("n", gmw.params[3]) for x in subterms(C))]
+    ctx.floor("C15.D6", len(cands), 1, "midpoint candidates tested for lying strictly inside (a, b)")
+    n6 = 0
+    for (f, v) in ps:
+        n6 += 1
+        bad = [C for C in cands if C != v and inside(C) in f]
+        miss = [C for C in primary if C != v and _negate(inside(C)) not in f]
+        ctx.check(not bad and not miss, "C15.D6", R.key_of(gmw, "fallback-guarded#%d" % n6), gmw.loc(),
+                  "`%s` is returned only on paths where every earlier candidate failed a < mid < b" % show(v)[:60],
+                  "get_middle_weighted can return `%s` although the candidate `%s` %s" %
+                  (show(v)[:80], show((bad or miss or [("?",)])[0])[:80], "was strictly inside (a, b)" if bad else "was never tested against (a, b)"))
+    ctx.check(bool(primary) and any(v == primary[0] for (f, v) in ps), "C15.D6", R.key_of(gmw, "returns-mid"), gmw.loc(),
+              "the probability-halving midpoint ppf((cdf(a) + cdf(b)) / 2) is returned when it lies inside",
+              "get_middle_weighted no longer returns the probability-halving midpoint")
     # the split itself asserts start < mid < end (shared with C06.D1)
     rf = prog.func("RefinementObject.RefinementObjectSingleDimension.refine")
     ctx.touch(rf)
@@ -452,7 +497,7 @@ def check_moment_caches(prog, ctx):
         subs = [n for n in ast.walk(fi.node) if isinstance(n, ast.Subscript) and isinstance(n.value, ast.Name) and n.value.id == CN]
         mem = [n for n in ast.walk(fi.node) if isinstance(n, ast.Compare) and isinstance(n.ops[0], ast.In) and isinstance(n.comparators[0], ast.Name)
                and n.comparators[0].id == CN]
-        keys = {repr(tm0.term(n.slice)) for n in subs} | {repr(tm0.term(n.left)) for n in mem}
+        keys = {repr(tm.term(n.slice)) for n in subs} | {repr(tm.term(n.left)) for n in mem}        # a key held in a local is looked through
         if keys != {repr(key)} or not mem or len(subs) < 2:
             problems.append("membership test, lookup and store do not all use the key (x1, x2)")
         stores = [st for st in walk_local(fi.node) if isinstance(st, ast.Assign) and st.targets[0] in subs]
@@ -474,10 +519,24 @@ def check_moment_caches(prog, ctx):
         else:
             q = [x for x in subterms(comp) if x[0] == "call" and x[1][0] == "a" and x[1][2] == "quad"]
             good = False
+            nested = {d.name: d for d in ast.walk(fi.node) if isinstance(d, ast.FunctionDef) and d is not fi.node}
             for x in q:
+                body = None
                 if len(x[2]) >= 3 and x[2][1] == ("n", x1) and x[2][2] == ("n", x2) and x[2][0][0] == "lambda":
                     body = x[2][0][2]
-                    good = body == ("op", "Mult", tuple(sorted((("bv", "$0"), ("call", ("a", ("n", "self"), "pdf"), (("bv", "$0"),), ())), key=repr)))
+                elif len(x[2]) >= 3 and x[2][1] == ("n", x1) and x[2][2] == ("n", x2) and x[2][0][0] == "n" and x[2][0][1] in nested:
+                    # the integrand written as a local function with one parameter and a single return
+                    d = nested[x[2][0][1]]
+                    stm = [z for z in d.body if not (isinstance(z, ast.Expr) and isinstance(z.value, ast.Constant))]
+                    if len(d.args.args) == 1 and len(stm) == 1 and isinstance(stm[0], ast.Return) and stm[0].value is not None:
+                        def _bv(t_, pn=d.args.args[0].arg):
+                            if t_ == ("n", pn):
+                                return ("bv", "$0")
+                            return tuple(_bv(z) for z in t_) if isinstance(t_, tuple) else t_
+                        body = _bv(Terms(d, max_depth=0).term(stm[0].value))
+                if body is not None:
+                    good = body[0] == "op" and body[1] == "Mult" and len(body[2]) == 2 and \
+                        set(body[2]) == {("bv", "$0"), ("call", ("a", ("n", "self"), "pdf"), (("bv", "$0"),), ())}
             if not good:
                 problems.append("the first moment is not the integral of x * pdf(x) over (x1, x2)")
         ctx.check(not problems, "C15.D7", R.key_of(fi, "cached-moment"), fi.loc(),
